@@ -81,7 +81,7 @@ class HRNP(BytesInterface):
         ), f"At least 12-bytes for HRNP required, got {len(data)} bytes instead"
         hrnp_packet_len = int.from_bytes(data[8:10], byteorder="big")
         assert len(data) >= hrnp_packet_len, f"packet seems incomplete"
-        return HRNP(
+        hrnp: HRNP = HRNP(
             header=data[0:1],
             version=data[1:2],
             block_number=data[2],
@@ -92,6 +92,12 @@ class HRNP(BytesInterface):
             checksum=data[10:12],
             data=data[12:hrnp_packet_len],
         )
+        # the verdict is about the received bytes, not about the re-serialised payload
+        hrnp.checksum_correct = (
+            HRNP.calculate_checksum(data[:10] + data[12:hrnp_packet_len])
+            == data[10:12]
+        )
+        return hrnp
 
     def as_bytes(self, endian: Literal["big", "little"] = "big") -> bytes:
         return (
@@ -137,11 +143,26 @@ class HRNP(BytesInterface):
         if self.has_data():
             checked_data += self.data.as_bytes()
 
+        check: bytes = HRNP.calculate_checksum(checked_data)
+
+        # make check and checksum comparable
+        checksum: bytes = (
+            checksum.to_bytes(length=2, byteorder="big")
+            if isinstance(checksum, int)
+            else checksum
+        )
+
+        return check == checksum, check
+
+    @staticmethod
+    def calculate_checksum(checked_data: bytes) -> bytes:
+        """
+        16-bit ones-complement checksum of header (without checksum field) and payload bytes
+        """
         if len(checked_data) % 2 == 1:
             # add padding byte
             checked_data += b"\x00"
 
-        # calc checksum
         check: int = 0
 
         for i in range(0, len(checked_data), 2):
@@ -150,13 +171,4 @@ class HRNP(BytesInterface):
         while check >> 16:
             check = (check & 0xFFFF) + (check >> 16)
 
-        check = ~check & 0xFFFF
-
-        # make check and checksum comparable
-        checksum: int = (
-            checksum
-            if isinstance(checksum, int)
-            else int.from_bytes(checksum, byteorder="big")
-        )
-
-        return check == checksum, check.to_bytes(length=2, byteorder="big")
+        return (~check & 0xFFFF).to_bytes(length=2, byteorder="big")
